@@ -222,12 +222,10 @@ Definition gather_frames (be : backend) (F P T D : nat) (ix : list nat) (m c : t
 Definition select_frames (be : backend) (F P T D : nat) (ix : list Z) (m c : tensor bool) : result (tensor bool * tensor bool) :=
   match be, ix with
   | Tf, [] => Err Value                                            (* tf.gather with an empty Python list *)
-  | Torch, _ =>                                                    (* torch does not bounds-check an index into a tensor without elements *)
+  | Np, _ => do ixn <- rmapM (norm_index true F) ix; gather_frames be F P T D ixn m c
+  | _, _ =>                                                        (* torch / tf.gather do not bounds-check an index into a tensor without elements *)
       if P * T * D =? 0 then gather_frames be F P T D (map (fun _ => 0) ix) m c
-      else do ixn <- rmapM (norm_index true F) ix; gather_frames be F P T D ixn m c
-  | _, _ =>
-      do ixn <- rmapM (norm_index (match be with Tf => false | _ => true end) F) ix;
-      gather_frames be F P T D ixn m c
+      else do ixn <- rmapM (norm_index (match be with Tf => false | _ => true end) F) ix; gather_frames be F P T D ixn m c
   end.
 (* frame_dropout_given_percent (pose_body.py:553-578; tensorflow/pose_body.py:70-100): select_frames of the drawn indexes *)
 Definition dropout (be : backend) (F P T D : nat) (sel : list nat) (m c : tensor bool) : result (tensor bool * tensor bool) :=
@@ -380,5 +378,33 @@ Definition inv_stmt_b (st : state) : bool :=
   | Ok (F, P, T, D) =>
       match num_dims (s_hdr st) with Some hd => (hd =? Z.of_nat D)%Z | None => false end
       && (total_points (s_hdr st) =? T) && consb (s_mask st) (s_cz st) F P T D
+  | Err _ => false
+  end.
+
+(* The property's preconditions in full for a NumPy body (two frames for interpolation, an observed point in every
+   dimension for focus, arguments in range ...): under them [step] does not fail (proofs/C12_Progress.v).  Selection
+   is left out: the validity of its name arguments is C11's subject. *)
+Definition expects_ok_np (st : state) (o : op) : bool :=
+  match dims4 (s_mask st) (s_cz st) with
+  | Ok (F, P, T, D) =>
+      negb (D =? 0) &&
+      match o with
+      | GetComponents _ _ | RemoveComponents _ _ => false
+      | BBox => forallb (fun c => negb (length (c_points c) =? 0)) (s_hdr st)
+      | Interpolate newF cz' =>
+          negb (F =? 1) && (0 <=? newF)%Z && negb (P =? 0) && negb (T =? 0) && (length cz' =? Z.to_nat newF * P * T)
+      | SliceStep by_ => negb (by_ =? 0)%Z
+      | SelectFrames ix => forallb (fun i => (- Z.of_nat F <=? i)%Z && (i <? Z.of_nat F)%Z) ix
+      | DropoutUniform sel | DropoutNormal sel => forallb (fun i => i <? F) sel
+      | Flip axis => (- Z.of_nat D <=? axis)%Z && (axis <? Z.of_nat D)%Z
+      | Augment2d _ => 2 <=? D
+      | Normalize i1 i2 => (i1 <? T) && (i2 <? T)
+      | NormalizeDistribution pp zs => length zs =? (if pp then T * D else D)
+      | Focus => negb (F * P * T =? 0) && (2 <=? D)
+                 && ex_lt F (fun f => ex_lt P (fun p => ex_lt T (fun t => negb (get3 (s_cz st) f p t))))
+      | Copy => true
+      | ToTorch lay => lay
+      | ToTensorflow => true
+      end
   | Err _ => false
   end.
